@@ -43,6 +43,10 @@ RULES = {
               "bracket end outside the current bracket (not a convex combination of the two ends), taken when the target exceeds "
               "the defect at the upper end, or the initial upper end is at least 2*pi/(2*pi - max_defect) high "
               "(a loop that only shrinks [P1,P2] cannot leave its initial bracket)",
+    "C14-U1": "a direction that is scaled by a radius parameter (radius * d, or the coefficient vector of the radius in an explicit "
+              "Vec(x, y, z)) is a proved unit vector: a normalisation, a rotation of a unit vector, or components whose squares "
+              "sum to 1 identically (modulo sin^2+cos^2 = 1, sqrt(E)^2 = E, |u| = 1 of unit vectors) - otherwise the shape does not "
+              "have the requested radius",
     "C14-D1": "vertex coordinates of the sphere / torus / cylinder generators have length-degree 1, sums are homogeneous, the result is "
               "translated by the centre (affine weight 1) and depends on every radius / centre / end-point parameter",
 }
@@ -141,6 +145,7 @@ def run(ctx):
     a1_full_turn(ctx)
     w1_chain(ctx)
     r1_ring_bracket(ctx)
+    u1_unit_directions(ctx)
     ctx.declare_unsupported("unit_triangle: triangular loop nest with `break` and a floor-divided row offset (no index rule applied)")
     ctx.declare_unsupported("sphere_fibonacci: connectivity comes from scipy ConvexHull (only C14-D1 on the coordinates)")
     ctx.declare_unsupported("dual_mesh: faces are vertex_to_faces() rings of the input mesh (data dependent)")
@@ -888,3 +893,35 @@ def r1_ring_bracket(ctx):
               f"every update of {ends} is a convex combination of the two ends, so the apex stays below the initial height {H:g}; "
               f"defects up to 2*pi-{eps if eps else '?'} need heights up to {need:.1f}" + wit,
               note=f"ring: fixed bracket up to {H:g} covers all admissible defects")
+
+
+# ----------------------------------------------------------------------- C14-U1
+# icosahedron is deliberately not listed: there `radius` scales the canonical coordinates (+-1, +-phi, 0), whose norm is
+# sqrt(1 + phi^2) - documented as a scale factor only (doubtful, reported, not armed).
+UNIT_FUNCS = [(SHAPES, "cylinder"), (SHAPES, "torus"), (SHAPES, "sphere_uv"), (SHAPES, "sphere_fibonacci"), (SHAPES, "icosphere")]
+
+
+def u1_unit_directions(ctx):
+    for key in UNIT_FUNCS:
+        fn = ctx.repo.func(*key)
+        site = ctx.site(key[0], fn)
+        geo = DIM[key]
+        it = D.Interp(fn, D.Config(geo, ctx.repo, key[0], unit=True)).run()
+        radii = sorted(p for p, (d, a) in geo.items() if d == 1 and a == 0)
+        obl = sorted(it.unit_obl.values(), key=lambda o: (o[0].lineno, o[0].col_offset, o[3]))
+        if not obl:
+            ctx.fail("C14-U1", site, f"{key[1]}: no direction scaled by {' / '.join(radii)} was found",
+                     "the radius must multiply a unit direction (or be the coefficient of a unit vector in explicit coordinates)")
+            continue
+        for node, ok, kind, detail in obl:
+            s = ctx.site(key[0], fn, node)
+            if kind == "radius-times-direction":
+                ctx.check(ok, "C14-U1", s, f"{key[1]}: the direction multiplied by the radius is not a proved unit vector",
+                          f"`{au.src(node)[:120]}`: `{detail[:100]}` is neither a normalisation, a rotation of a unit vector, nor a vector "
+                          f"whose squared components sum to 1 identically - the points are at distance radius*|d| instead of radius "
+                          f"(e.g. components (u.y, -u.x, 0) of a unit vector u have norm sqrt(1 - u.z^2))",
+                          note=f"{key[1]}: `{detail[:60]}` is a unit vector")
+            else:
+                ctx.check(ok, "C14-U1", s, f"{key[1]}: the coefficient vector of a radius in the explicit coordinates is not a unit vector",
+                          f"`{au.src(node)[:80]}` with {detail[:160]}: its squared components do not sum to 1",
+                          note=f"{key[1]}: {detail[:80]} is a unit vector")
